@@ -94,14 +94,17 @@ func VPH_pathChain() {
 	b0, b1 := vpMkOID('b', 0), vpMkOID('b', 1)
 	t0, t1 := vpMkOID('t', 0), vpMkOID('t', 1)
 	c0, g0 := vpMkOID('c', 0), vpMkOID('g', 0)
+	g1 := vpMkOID('g', 1) // an annotated tag of the tree t0 (like v2.6.11-tree in linux.git)
 	m.kind[b0], m.kind[b1], m.kind[t0], m.kind[t1], m.kind[c0], m.kind[g0] = "blob", "blob", "tree", "tree", "commit", "tag"
+	m.kind[g1] = "tag"
 	// directory names may contain or end in ':' (git allows any byte but NUL and '/')
 	dir := []string{"d", "notes:", "x:y"}[vp_Choice("dirname", 3)]
 	m.entries[t1] = map[string]git.OID{"f": b1}
 	m.entries[t0] = map[string]git.OID{"a": b0, dir: t1}
 	m.treeOf[c0] = t0
 	m.target[g0] = c0
-	m.names = map[string]git.OID{"refs/heads/m": c0, "HEAD": c0, "refs/tags/v": g0, "refs/tags/t": t0, "refs/tags/s": t1, "refs/tags/b": b1}
+	m.target[g1] = t0
+	m.names = map[string]git.OID{"refs/heads/m": c0, "HEAD": c0, "refs/tags/v": g0, "refs/tags/t": t0, "refs/tags/s": t1, "refs/tags/b": b1, "refs/tags/tt": g1}
 	subRoot := "HEAD:" + dir
 
 	mkTree := func(ents [][2]interface{}) []byte {
@@ -130,7 +133,7 @@ func VPH_pathChain() {
 	}
 	roots := []root{
 		{"refs/heads/m", c0, true}, {"refs/tags/v", g0, true}, {"refs/tags/t", t0, true}, {"HEAD^{tree}", t0, false},
-		{subRoot, t1, false}, {"refs/tags/b", b1, true}, {"refs/tags/s", t1, true},
+		{subRoot, t1, false}, {"refs/tags/b", b1, true}, {"refs/tags/s", t1, true}, {"refs/tags/tt", g1, true},
 	}
 	r := roots[vp_Choice("root", len(roots))]
 	// optionally a second root (references are processed before ROOT arguments, in this order)
@@ -189,6 +192,9 @@ func VPH_pathChain() {
 	if need[g0] {
 		g.RegisterTag(g0, &git.Tag{Size: 100, Referent: c0, ReferentType: "commit"})
 	}
+	if need[g1] {
+		g.RegisterTag(g1, &git.Tag{Size: 100, Referent: t0, ReferentType: "tree"})
+	}
 	if r.isRef {
 		g.RegisterReference(git.Reference{Refname: r.name, OID: r.oid}, nil)
 	}
@@ -200,6 +206,27 @@ func VPH_pathChain() {
 		g.pathResolver.RecordName(r2.name, r2.oid)
 	}
 	hs := g.HistorySize()
+
+	// The table, JSON v1 and JSON v2 render the descriptions in different orders
+	// (and some of them twice): what is printed for an object must not depend on
+	// which other descriptions were rendered before. First pass: ancestors first.
+	cited := []*Path{hs.MaxCommitSizeCommit, hs.MaxParentCountCommit, hs.MaxTagDepthTag, hs.MaxTreeEntriesTree, hs.MaxPathDepthTree,
+		hs.MaxPathLengthTree, hs.MaxExpandedTreeCountTree, hs.MaxExpandedBlobCountTree, hs.MaxExpandedBlobSizeTree, hs.MaxBlobSizeBlob}
+	var firstPass []string
+	for _, p := range cited {
+		if p == nil {
+			firstPass = append(firstPass, "")
+		} else {
+			firstPass = append(firstPass, p.Path())
+		}
+	}
+	defer func() {
+		for i := len(cited) - 1; i >= 0; i-- {
+			if cited[i] != nil {
+				vp_Assert(cited[i].Path() == firstPass[i], "the description of an object does not depend on what was rendered before it (table, JSON v1 and v2 agree)")
+			}
+		}
+	}()
 
 	check := func(what string, p *Path, kind string) {
 		if p == nil {
